@@ -286,4 +286,22 @@ theorem dmToVec_getD (S : Scalars R) (hd : 1 ≤ d) (A : Mat d R) {p : Nat} (hp 
   have : p < (analysis S d A).length := by omega
   rw [List.getElem?_eq_getElem this]; rfl
 
+/-- real coefficients give a Hermitian matrix -/
+theorem synthesis_hermitian (S : Scalars R) (hS : S.Valid d) (hd : 1 ≤ d) (v : Nat → R)
+    (hv : ∀ a, a < d * d → star (v a) = v a) : (Matrix.of (synthesis S d v))ᴴ = Matrix.of (synthesis S d v) := by
+  rw [synthesis_eq_sum' S hd, conjTranspose_sum]
+  refine Finset.sum_congr rfl (fun a ha => ?_)
+  rw [conjTranspose_smul, basis_hermitian S hS hd (Finset.mem_range.1 ha), hv a (Finset.mem_range.1 ha)]
+
+/-- the trace sees only the last coefficient -/
+theorem synthesis_trace (S : Scalars R) (hd : 1 ≤ d) (v : Nat → R) :
+    trace (Matrix.of (synthesis S d v)) = v (d * d - 1) * ((d : R) * S.cI) := by
+  rw [synthesis_eq_sum' S hd, trace_sum]
+  have hlt : d * d - 1 < d * d := by have : 0 < d * d := Nat.mul_pos hd hd; omega
+  rw [Finset.sum_eq_single (d * d - 1)]
+  · rw [trace_smul, basis_trace S hd hlt, if_pos rfl, smul_eq_mul]
+  · intro b hb hne
+    rw [trace_smul, basis_trace S hd (Finset.mem_range.1 hb), if_neg hne, smul_zero]
+  · intro h; exact absurd (Finset.mem_range.2 hlt) h
+
 end Numqi.Gellmann
